@@ -35,6 +35,8 @@ import (
 	"testing"
 	"time"
 
+	"github.com/refraction-networking/conjure/internal/conjurepath"
+	"github.com/refraction-networking/conjure/pkg/core"
 	cj "github.com/refraction-networking/conjure/pkg/station/lib"
 	"github.com/refraction-networking/conjure/pkg/station/log"
 )
@@ -831,6 +833,35 @@ func (xGeo) ASN(ip net.IP) (uint, error) {
 	return asn, nil
 }
 
+// xUsableSecrets: a registration is built by deriving a phantom from its secret first (the driver then pins the world's
+// phantom address).  With the test subnet file some seeds fall into a weighted subnet set without IPv6 networks and the
+// derivation fails before the address is pinned; such a registration gets another secret name (the secret itself stays
+// a function of name and VERIF_SEED).
+func xUsableSecrets(t testing.TB, ws *vWorldSpec) {
+	os.Setenv("PHANTOM_SUBNET_LOCATION", conjurepath.Root+"/pkg/station/lib/test/phantom_subnets.toml")
+	rm := cj.NewRegistrationManager(&cj.RegConfig{EnableIPv4: true, EnableIPv6: true})
+	if rm == nil {
+		t.Fatal("no registration manager")
+	}
+	for i := range ws.Regs {
+		rs := &ws.Regs[i]
+		v6 := net.ParseIP(ws.Phantoms[rs.Phantom]).To4() == nil
+		base := rs.Secret
+		for k := 0; k < 64; k++ {
+			if k > 0 {
+				rs.Secret = fmt.Sprintf("%s~%d", base, k)
+			}
+			keys, err := core.GenSharedKeys(uint(core.CurrentClientLibraryVersion()), vSecret(rs.Secret), vTransportType(rs.Transport))
+			if err != nil {
+				t.Fatal(err)
+			}
+			if _, err := rm.PhantomSelector.Select(keys.ConjureSeed, 957, uint(core.CurrentClientLibraryVersion()), v6); err == nil {
+				break
+			}
+		}
+	}
+}
+
 func TestVerifAcctHandler(t *testing.T) {
 	out := vOpenOut(t)
 	defer out.Close()
@@ -892,6 +923,7 @@ func TestVerifAcctHandler(t *testing.T) {
 			if err := json.Unmarshal(raw, ws); err != nil {
 				t.Fatalf("world: %v", err)
 			}
+			xUsableSecrets(t, ws)
 			w = vNewWorld(t, ws)
 			w.rm.GeoIP = xGeo{}
 			return
